@@ -24,8 +24,8 @@ def _keys_of(expr, fn, dname) -> bool:
     """expr iterates the keys of self._state.<dname> (directly or through a single-assignment local snapshot)"""
     e = expr
     if isinstance(e, ast.Name):
-        defs = [n for n in own_walk(fn) if isinstance(n, ast.Assign) and len(n.targets) == 1 and isinstance(n.targets[0], ast.Name)
-                and n.targets[0].id == e.id]
+        defs = [n for n in own_walk(fn) if (isinstance(n, ast.Assign) and len(n.targets) == 1 and isinstance(n.targets[0], ast.Name) and n.targets[0].id == e.id)
+                or (isinstance(n, ast.AnnAssign) and n.value is not None and isinstance(n.target, ast.Name) and n.target.id == e.id)]
         if len(defs) != 1:
             return False
         e = defs[0].value
